@@ -54,8 +54,23 @@ def required_cells(tier):
     cells += ["prefix:-g*", "prefix:-c*", "prefix:-o*", "prefix:-O*", "prefix:-i*", "prefix:-I*", "prefix:-D*",
               "unmodelled-with-value", "value:space", "value:equals", "value:quote", "value:leading-dash", "command-string",
               "database-file", "database-literal-metacharacters", "database-entry-in-build-directory", "environment:CPATH-set", "database-entry-with-both-forms",
-              "front-end:percent-signs", "database-multi-entry", "class:E", "class:R", "each-catalogue-flag-next-to-modelled"]
+              "front-end:percent-signs", "database-multi-entry", "class:E", "class:R", "each-catalogue-flag-next-to-modelled", "idiom:dash", "idiom:launcher", "database-file:idiom:dash", "database-file:idiom:launcher"]
     return cells
+
+
+SPECIAL = [(["gcc", "-E", "-DX", "-o", "-"], "dash"), (["gcc", "-DX", "-c", "a.c", "-o", "-"], "dash"), (["gcc", "-", "-DX"], "dash"),
+           (["gcc", "-x", "c", "-", "-DX=1", "-Iinc"], "dash"), (["gcc", "-MF", "-", "-DX", "-MD"], "dash"), (["cc", "-DX", "-o", "-", "-Iinc"], "dash"),
+           (["clang", "-o", "-", "-DX"], "dash"), (["gcc", "-DX", "-o", "-", "-o", "-"], "dash"), (["icx", "-include", "pre.h", "-o", "-"], "dash"),
+           (["nvcc", "-o", "-", "-DY=2", "-"], "dash"),
+           (["ccache", "/usr/bin/c++", "-DFIRST", "-include", "pre.h", "-I/opt/toolchains/gcc", "-DSECOND=2", "-c", "main.cpp"], "launcher"),
+           (["sccache", "cc", "-DHOST_COMPILER=/usr/bin/g++", "-Iinc", "-DLAST"], "launcher"),
+           (["distcc", "mpicxx", "-DA", "-o", "clang", "-DX"], "launcher"),
+           (["ccache", "/opt/cross/bin/arm-gcc-12", "-DA", "-I", "/usr/lib/gcc", "-DX"], "launcher"),
+           (["icecc", "c++", "-DB=1", "-isystem", "/opt/nvidia/bin/nvcc", "-DA"], "launcher"),
+           (["buildcache", "cc", "-DC", "-include", "gcc", "-DA"], "launcher"),
+           (["ccache", "CCACHE_DIR=/tmp/c", "cc", "-DD", "-I", "clang++", "-Iicx", "-I", "icpx", "-DE"], "launcher"),
+           (["/usr/lib/ccache/c++", "-DF", "-I/opt/gcc", "g++", "-DG"], "launcher"),
+           (["ccache", "gcc", "-DH", "-I", "inc"], "launcher"), (["ccache", "nvcc", "-DI", "-Iclang"], "launcher")]
 
 
 def modelled_items():
@@ -183,7 +198,13 @@ def classify(shrunk, observed):
         if re.fullmatch(r"-c[^\s]+", t) and "ArgumentError" in msg and "-c" in msg:
             return "argparse-abort:-c<suffix>"
     if "ArgumentError" in msg and "expected one argument" in msg:
-        return "argparse-abort:option-value-missing-or-dash-leading"
+        # only when the vector really holds a value-taking option followed by nothing or by a dash-leading token that is
+        # neither the bare `-` nor number-like (argparse accepts those as values)
+        takes = ("-D", "-I", "-U", "-isystem", "-include", "-o")
+        for i, t in enumerate(toks):
+            if t in takes and (i + 1 == len(toks) or (toks[i + 1].startswith("-") and toks[i + 1] != "-"
+                                                      and not re.fullmatch(r"-\d+|-\d*\.\d+", toks[i + 1]))):
+                return "argparse-abort:option-value-missing-or-dash-leading"
     if st == "ok":
         for t in toks:
             if re.match(r"-isystem.+", t) or re.match(r"-include.+", t):
@@ -411,12 +432,17 @@ def database_form(ctx, obs, rng, work):
         if not p_.startswith("/") and not p_.startswith(".."):
             os.makedirs(os.path.join(work, p_), exist_ok=True)
     os.makedirs(os.path.join(work, "build"), exist_ok=True)
-    for i in range(n):
+    for i in range(-len(SPECIAL), n):
         wd = work if i % 2 == 0 else os.path.join(work, "build")
-        argv = [rng.choice(["gcc", "cc", "clang"])]
-        for _ in range(rng.randint(1, 8)):
-            argv += rng.choice(mods)[0] if rng.random() < 0.5 else rng.choice(unm)
-        argv += ["-c", os.path.join(work, "src/a.c")]
+        if i < 0:
+            # the hand-written vectors (bare dash, compiler launchers) through a real database file as well
+            argv = list(SPECIAL[i][0]) + ["-c", os.path.join(work, "src/a.c")]
+            acc.cells["database-file:idiom:" + SPECIAL[i][1]] += 1 if ctx.mine(i) else 0
+        else:
+            argv = [rng.choice(["gcc", "cc", "clang"])]
+            for _ in range(rng.randint(1, 8)):
+                argv += rng.choice(mods)[0] if rng.random() < 0.5 else rng.choice(unm)
+            argv += ["-c", os.path.join(work, "src/a.c")]
         if not ctx.mine(i) or not all(SAFE.match(a) for a in argv):
             continue
         exp = expected(argv)
@@ -592,6 +618,12 @@ def run_shard(ctx):
         if not ctx.mine(idx):
             continue
         check_argv(ctx, obs, ["cc"] + m1 + m2, "E", [])
+    # S: hand-written vectors around two idioms: `-` (standard input / output) as a value or a file, and a compiler
+    # launcher in front of a compiler the analysis has no definition for, with values whose base name is a compiler's
+    for k, (argv, kind) in enumerate(SPECIAL):
+        if (k + 5) % ctx.nshards == ctx.shard:
+            check_argv(ctx, obs, argv, "S", ["idiom:" + kind])
+            command_form(ctx, obs, argv, crng)
     # R: long random vectors
     for i in range(b["random"]):
         argv = [rng.choice(ARGV0)]
